@@ -94,8 +94,18 @@ def recursive(with_receiver, calls_self, ret_string):
                                              'str' if ret_string else 'int'), _program([A]))
 
 
+def nested_function(nparams):
+    """fun outer(): Unit { fun inner(p1: Int, ..., pn: Int): Int = p1;  inner(1, ..., n) }"""
+    params = [ast.ParameterDeclaration('p%d' % i, kt.Integer) for i in range(1, nparams + 1)]
+    inner = ast.FunctionDeclaration('inner', params, kt.Integer, ast.Variable('p1'), ast.FunctionDeclaration.FUNCTION)
+    call = ast.FunctionCall('inner', [ast.CallArgument(ast.IntegerConstant(i, kt.Integer)) for i in range(1, nparams + 1)])
+    x = ast.VariableDeclaration('r', call, is_final=True, var_type=kt.Integer)
+    outer = ast.FunctionDeclaration('outer', [], kt.Unit, ast.Block([inner, x]), ast.FunctionDeclaration.FUNCTION)
+    return 'template/nested-function-%dparams' % nparams, _program([outer])
+
+
 def all_templates():
-    out = []
+    out = [nested_function(2), nested_function(4), nested_function(5)]
     for f1 in (0, 1):
         for f2 in (0, 1):
             for full in (0, 1):
